@@ -114,8 +114,8 @@ def run(tier, seed, replay):
             fs = forms(g["p"], r)
             for kind, src, ref in (fs if not quick else [fs[0], fs[1], fs[2], fs[3]] + r.sample(fs[4:], 2)):
                 add(src, r.sample(uni, 1 if quick else 3) + [r.choice(nullish)] + (r.sample(stringy, 2) if kind == "law-asserted" else []), ref)
-                if kind == "law-asserted":
-                    lawcases.add(len(cases) - 1)
+                if kind == "law-asserted" or (kind == "paths" and any(m in src for m in ("[paths] == ", "[tostream] == ", "to_entries == ", ") == (.[] |= "))):
+                    lawcases.add(len(cases) - 1 - (1 if ref else 0))        # (the definitional equalities of the `paths` forms are asserted as well)
         for g in [g for g in gen if g["d"] == 0]:
             ins = r.sample(heapin, 2 if quick else 4)
             add("%s |= %s" % (g["p"], g["f"]), ins, MODIFY_DEF + "_m(%s; %s)" % (g["p"], g["f"]))
@@ -152,6 +152,8 @@ def run(tier, seed, replay):
                 if run_.get("err") is None and out in ([True], ["p-fails"], ["invalid-path"], ["invalid-path-suppressed"]):
                     nlaw += 1
                     continue
+                if run_.get("err") is not None and "(try [" not in rec["src"]:
+                    continue          # a definitional equality whose sides both fail on this input (wrong type): nothing to compare
                 fid = evalfam.match_known(rep, rec, run_, None, {})
                 if fid:
                     rep.known_finding(fid, "%r on %s" % (rec["src"], evalfam.show(run_["in"])))
